@@ -16,6 +16,15 @@ CHECKS = {
              "or a typed error. Exhaustive within the stated constants; the right level because the law is over all state pairs.",
         note="Bounded universes (cfg constants); TLC; the harness projection; hooks verif::diff_state / upsert_instance / warp_ids.",
         design="3 C04"),
+    "C06": dict(
+        technique="TLC model checking of MC_C06.tla (Canon facts over all states) + model-derived metamorphic relation root(s1)=root(s2) <=> Canon(s1)=Canon(s2) on the real hashes",
+        text="TLC enumerates every state of a bounded multi-instance universe containing reachable and unreachable content and exports Canon(s, root) "
+             "(the value the root must commit to, transcribed from compute_state_root) for each candidate root; the harness builds each state in five "
+             "construction orders and the runner requires root equality exactly when Canon is equal across ALL explored states, accumulator root = "
+             "store-walking root, order-independent WSC bytes and WSC read-back denoting the same state. Hashes are abstract in the model, so the hash claim is "
+             "decided as a model-derived relation on real hashes.",
+        note="Bounded universe; BLAKE3 collision-freeness; hooks verif::legacy_state_root / accumulator_state_root / apply_ops.",
+        design="3 C06"),
 }
 
 NOT_APPLICABLE = {
